@@ -287,6 +287,165 @@ class HasNext(Unit):
         ctx.eng.explore(thunk)
 
 
+class HasNextGeneric(Unit):
+    """_has_next over an outbound list of any length: the guard, one arbitrary loop iteration, the fall-through."""
+    name = "C._has_next.generic"
+    functions = ["orquesta.conducting.WorkflowConductor._has_next", "orquesta.conducting.WorkflowConductor.has_next_tasks",
+                 "orquesta.conducting.WorkflowConductor.has_barrier_next", "orquesta.conducting.WorkflowConductor.get_task_state_entry"]
+    obligations = {
+        "C02.hn.definition_any": {"props": ["C02", "C03", "C07"], "text":
+            "for an outbound transition list of any length: False without looking at the transitions unless the task's latest record on the route is completed; an arbitrary loop iteration returns True iff its transition is not `continue`, was decided true in the record, and (has_next_tasks only) its target is not a join whose inbound criteria - asked for exactly that target and this route - are NOT_SATISFIED; otherwise it goes on to the next transition without any effect; when no iteration returns, the answer is False; the record is never modified"},
+    }
+    assumptions = [
+        "loop summary: the body is verified for one arbitrary element of the outbound list; an iteration either returns True or continues without effect (shown), so the call returns True iff some element satisfies the per-element predicate - this first-hit argument is stated, not re-proved by the solver",
+        "graph.get_next_transitions / has_barrier: assumed contracts (an arbitrary list; an arbitrary truth value for the target); get_inbound_criteria_status: assumed contract (arbitrary criteria status, no effect) - its definition is the subject of C.get_inbound_criteria_status",
+        "the transition id is formatted from concrete ids (target `n1` or `continue`, key 0); whether the record holds a decision for it, and which, is symbolic",
+    ]
+    trusted = ["z3 5.1", "pyvc interpreter"]
+    timeout_ms = 20000
+
+    def splits(self, tier):
+        return [("has_next_tasks", t) for t in ("n1", "continue")] + [("has_barrier_next", t) for t in ("n1", "continue")]
+
+    def run_split(self, ctx, split):
+        from pyvc.engine import _Continue, _Return
+        which, tgt = split
+        CRIT = (constants.INBOUND_CRITERIA_SATISFIED, constants.INBOUND_CRITERIA_WIP, constants.INBOUND_CRITERIA_NOT_SATISFIED)
+
+        def thunk(e):
+            present = e.branch(S.mk_bool("record_present").z)
+            status = st.ALL_STATUSES[e.choose(len(st.ALL_STATUSES))]
+            sequence, tasks = [], {}
+            decided = None
+            if present:
+                rec = {"id": "t", "route": 0, "ctxs": {"in": [0]}, "prev": {}, "next": {}}
+                if status != st.UNSET:
+                    rec["status"] = status
+                k = e.choose(3)
+                if k == 1:
+                    decided = S.mk_bool("decision")
+                    rec["next"]["%s__t0" % tgt] = decided
+                elif k == 2:
+                    rec["next"]["other__t0"] = True
+                sequence.append(rec)
+                tasks["t__r0"] = 0
+            isb = e.register_input("target_is_join", S.mk_bool("target_is_join"))
+            inbound = e.register_input("inbound", S.mk_const("inbound", CRIT))
+            e.assume(inbound.dom_constraint())
+            e.register_input("call", which)
+            e.register_input("target", tgt)
+            e.register_input("record", bool(present))
+            e.register_input("status", status)
+            e.register_input("decision_present", decided is not None)
+            if decided is not None:
+                e.register_input("decision", decided)
+            outbounds = AbstractObj("outbounds")
+            log = {"gnt": 0, "gics": [], "iter": None, "loops": 0}
+
+            def gnt(eng, x):
+                log["gnt"] += 1
+                return outbounds
+
+            def gics(eng, s_, tid, route):
+                log["gics"].append((tid, route))
+                return inbound
+            graph = AbstractObj("graph", get_next_transitions=Stub("gnt", gnt),
+                                has_barrier=Stub("has_barrier", lambda eng, x: isb if x == tgt else S.mk_bool("other_is_join")))
+            c, ws = cbase.new_conductor(st.RUNNING, sequence=sequence, tasks=tasks, graph=graph)
+            e.overrides[conducting.WorkflowConductor.get_inbound_criteria_status] = gics
+            snap0 = [cbase.snapshot(r) for r in sequence]
+
+            def loop(en, st_, env):
+                log["loops"] += 1
+                xs = en.eval(st_.iter, env)
+                if xs is not outbounds:
+                    raise S.Unsupported("the loop of _has_next does not iterate the outbound transitions")
+                if en.choose(2) == 0:
+                    log["iter"] = "none"
+                    return
+                log["iter"] = "one"
+                en.assign(st_.target, ("t", tgt, 0, {"criteria": [], "ref": 0}), env)
+                try:
+                    en.exec_block(st_.body, env)
+                except _Continue:
+                    pass
+                # the iteration did not return: it must have had no effect (checked below), go on
+                log["iter"] = "one-continued"
+
+            e.loop_handlers["WorkflowConductor._has_next:loop#0"] = loop
+            if which == "has_next_tasks":
+                res = e.call(conducting.WorkflowConductor.has_next_tasks, [c], {"task_id": "t", "route": 0})
+            else:
+                res = e.call(conducting.WorkflowConductor.has_barrier_next, [c, "t"], {"route": 0})
+            ctx.canary()
+            zb = lambda x: e.zbool_of(x) if not isinstance(x, bool) else z3.BoolVal(x)
+            completed = present and status in st.COMPLETED_STATUSES
+            cl = []
+            if not completed:
+                cl += [zb(res) == z3.BoolVal(False), z3.BoolVal(log["loops"] == 0)]
+            else:
+                cl.append(z3.BoolVal(log["loops"] == 1 and log["gnt"] == 1))
+                if log["iter"] == "none":
+                    cl.append(zb(res) == z3.BoolVal(False))
+                else:
+                    dec = decided.z if (decided is not None and tgt != "continue") else z3.BoolVal(False)
+                    if which == "has_next_tasks":
+                        pred = z3.And(dec, z3.Or(z3.Not(isb.z), inbound.z != INTERN.id_of(constants.INBOUND_CRITERIA_NOT_SATISFIED)))
+                    else:
+                        pred = dec
+                    cl.append(zb(res) == pred)
+                    cl.append(z3.BoolVal(isinstance(res, bool) or isinstance(res, SBool)))
+            cl.append(z3.BoolVal(all(t_ == tgt and (r_ == 0 and not isinstance(r_, bool)) for t_, r_ in log["gics"])))
+            if which == "has_barrier_next":
+                cl.append(z3.BoolVal(not log["gics"]))
+            same = cbase.same_structure(e, snap0, sequence)
+            cl.append(z3.BoolVal(same) if isinstance(same, bool) else same)
+            ctx.oblige("C02.hn.definition_any", z3.And(cl), None,
+                       {"call": which, "target": tgt, "record": present, "status": status, "iteration": log["iter"]})
+
+        ctx.eng.explore(thunk)
+
+    def native(self, inputs):
+        """Counter-model replay: the real method on a real conductor whose task has exactly the one
+        outbound transition of the model (and a second run with an undecided transition in front of it)."""
+        import types
+        tgt, which = inputs["target"], inputs["call"]
+        dec = bool(inputs.get("decision")) if inputs.get("decision_present") else None
+        isb, inbound = bool(inputs.get("target_is_join")), inputs.get("inbound")
+        completed = inputs["record"] and inputs["status"] in st.COMPLETED_STATUSES
+        want = bool(completed and tgt != "continue" and dec
+                    and (which == "has_barrier_next" or not isb or inbound != constants.INBOUND_CRITERIA_NOT_SATISFIED))
+        cases, ok = [], True
+        for lead in ([], [("t", "zz", 0, {})]):
+            sequence, tasks = [], {}
+            if inputs["record"]:
+                rec = {"id": "t", "route": 0, "ctxs": {"in": [0]}, "prev": {}, "next": {}}
+                if inputs["status"] != st.UNSET:
+                    rec["status"] = inputs["status"]
+                if dec is not None:
+                    rec["next"]["%s__t0" % tgt] = dec
+                sequence.append(rec)
+                tasks["t__r0"] = 0
+            graph = types.SimpleNamespace(get_next_transitions=lambda t: lead + [("t", tgt, 0, {})],
+                                          has_barrier=lambda t: isb if t == tgt else False)
+            c, ws = cbase.new_conductor(st.RUNNING, sequence=sequence, tasks=tasks, graph=graph)
+            c.get_inbound_criteria_status = lambda tid, route: inbound
+            before = json_util.deepcopy(sequence)
+            try:
+                r = c.has_next_tasks(task_id="t", route=0) if which == "has_next_tasks" else c.has_barrier_next("t", route=0)
+            except Exception as ex:
+                cases.append({"raised": repr(ex)})
+                ok = False
+                continue
+            good = (r is want) and sequence == before
+            cases.append({"outbound": [x[1] for x in lead] + [tgt], "returned": r, "specified": want, "record_unchanged": sequence == before})
+            ok = ok and good
+        return {"cases": cases, "ok": ok}
+
+    def clause(self, name):
+        return (lambda v: v["ok"]) if name == "C02.hn.definition_any" else None
+
+
 class RouteSplitGeneric(Unit):
     """_evaluate_route on a routes list of any length whose selected route has any length and any content."""
     name = "C._evaluate_route.generic"
